@@ -47,11 +47,27 @@ type verifFileSystem struct {
 	ops     int      // mutating operations started
 	crashAt int      // crash before the crashAt-th mutating operation (0 = never)
 	failAt  int      // the failAt-th mutating operation fails instead (0 = never)
+	coarse  bool     // count directory-level operations only (natively replayable points)
 	temps   int      // MkdirTemp / CreateTemp counter
 	log     []string // mutating operations, in order
 }
 
 var verifFS *verifFileSystem
+
+// verifNativeFaults: natively (replays through rewritten sources) the directory-level
+// operations count and fail/crash here; file contents go to the real file system.
+var verifNativeFaults struct{ ops, crashAt, failAt int }
+
+func verifNativeStep(op, path string) error {
+	verifNativeFaults.ops++
+	if verifNativeFaults.crashAt != 0 && verifNativeFaults.ops == verifNativeFaults.crashAt {
+		verifrt.CrashNow()
+	}
+	if verifNativeFaults.failAt != 0 && verifNativeFaults.ops == verifNativeFaults.failAt {
+		return &fs.PathError{Op: op, Path: path, Err: verifErrInjected}
+	}
+	return nil
+}
 
 var (
 	verifErrNotExist = errors.New("file does not exist")
@@ -68,6 +84,11 @@ func verifNewFS() *verifFileSystem {
 // step announces a mutating operation: the point where the process may crash or the
 // operation may fail.
 func (s *verifFileSystem) step(op, path string) error {
+	if s.coarse && (op == "write" || op == "truncate") {
+		// only the operations that can also be intercepted natively are counted
+		s.log = append(s.log, op+" "+path)
+		return nil
+	}
 	s.ops++
 	if s.crashAt != 0 && s.ops == s.crashAt {
 		verifrt.CrashNow()
@@ -184,6 +205,12 @@ func verifOsReadDir(name string) ([]os.DirEntry, error) {
 
 func verifOsMkdirAll(path string, perm os.FileMode) error {
 	if verifFS == nil {
+		if info, err := os.Stat(path); err == nil && info.IsDir() {
+			return nil
+		}
+		if err := verifNativeStep("mkdirall", path); err != nil {
+			return err
+		}
 		return os.MkdirAll(path, perm)
 	}
 	p := verifClean(path)
@@ -210,6 +237,9 @@ func verifOsMkdirAll(path string, perm os.FileMode) error {
 
 func verifOsMkdirTemp(dir, pattern string) (string, error) {
 	if verifFS == nil {
+		if err := verifNativeStep("mkdirall", dir+"/"+pattern); err != nil {
+			return "", err
+		}
 		return os.MkdirTemp(dir, pattern)
 	}
 	if dir == "" {
@@ -225,6 +255,12 @@ func verifOsMkdirTemp(dir, pattern string) (string, error) {
 
 func verifOsRemoveAll(path string) error {
 	if verifFS == nil {
+		if _, err := os.Lstat(path); err != nil {
+			return os.RemoveAll(path)
+		}
+		if err := verifNativeStep("removeall", path); err != nil {
+			return err
+		}
 		return os.RemoveAll(path)
 	}
 	p := verifClean(path)
@@ -244,6 +280,12 @@ func verifOsRemoveAll(path string) error {
 
 func verifOsRemove(name string) error {
 	if verifFS == nil {
+		if _, err := os.Lstat(name); err != nil {
+			return os.Remove(name)
+		}
+		if err := verifNativeStep("remove", name); err != nil {
+			return err
+		}
 		return os.Remove(name)
 	}
 	p := verifClean(name)
@@ -263,6 +305,12 @@ func verifOsRemove(name string) error {
 
 func verifOsRename(oldpath, newpath string) error {
 	if verifFS == nil {
+		if _, err := os.Lstat(oldpath); err != nil {
+			return os.Rename(oldpath, newpath)
+		}
+		if err := verifNativeStep("rename", oldpath); err != nil {
+			return err
+		}
 		return os.Rename(oldpath, newpath)
 	}
 	from, to := verifClean(oldpath), verifClean(newpath)
@@ -299,6 +347,11 @@ func verifOsRename(oldpath, newpath string) error {
 
 func verifOsWriteFile(name string, data []byte, perm os.FileMode) error {
 	if verifFS == nil {
+		if _, err := os.Lstat(name); err != nil {
+			if err := verifNativeStep("create", name); err != nil {
+				return err
+			}
+		}
 		return os.WriteFile(name, data, perm)
 	}
 	// open (create, truncate), write, close: a crash in between leaves an empty file
@@ -337,6 +390,11 @@ func verifOsOpen(name string) (*os.File, error) {
 
 func verifOsOpenFile(name string, flag int, perm os.FileMode) (*os.File, error) {
 	if verifFS == nil {
+		if _, err := os.Lstat(name); err != nil && flag&os.O_CREATE != 0 {
+			if err := verifNativeStep("create", name); err != nil {
+				return nil, err
+			}
+		}
 		return os.OpenFile(name, flag, perm)
 	}
 	p := verifClean(name)
@@ -375,6 +433,9 @@ func verifOsOpenFile(name string, flag int, perm os.FileMode) (*os.File, error) 
 
 func verifOsCreateTemp(dir, pattern string) (*os.File, error) {
 	if verifFS == nil {
+		if err := verifNativeStep("create", dir+"/"+pattern); err != nil {
+			return nil, err
+		}
 		return os.CreateTemp(dir, pattern)
 	}
 	if dir == "" {
